@@ -1,4 +1,4 @@
-\* C18 thorough (replay 4; TraceparentFilter alone): 1 thread, <= 2 spans, <= 3 frames, nesting <= 3, all seven headers, nested header pushes (mismatched trace, same trace / other caller span); every transition replayed.
+\* C18 thorough (replay 4; TraceparentFilter alone): 1 thread, <= 2 spans, <= 3 frames, nesting <= 3, all eleven headers (valid, mismatched, and every invalid kind: no ids, span id only, trace id only, each with sampled and unsampled flag), nested header pushes (mismatched trace, same trace / other caller span); every transition replayed.
 SPECIFICATION Spec
 CONSTANTS
     NThreads = 1
@@ -6,7 +6,7 @@ CONSTANTS
     MaxFrames = 3
     MaxTasks = 0
     MaxDepth = 3
-    Headers <- MC_HeadersAll
+    Headers <- MC_HeadersAllInv
     InSampled = FALSE
     SnapshotOnPush = TRUE
     WithLazy = FALSE
